@@ -113,8 +113,17 @@ enum Kind {
     Mac,
     Call,
     Blk,
+    // a completed sibling construct in front of the child (same body)
+    SeqW,
+    SeqS,
+    SeqA,
+    SeqL,
+    /// includes (a template with its own scopes and loop controls; one with another auto-escape mode)
+    SeqI,
+    /// from-import + macro call
+    SeqM,
 }
-const KINDS: [(Kind, &str); 16] = [
+const KINDS: [(Kind, &str); 22] = [
     (Kind::For, "for"),
     (Kind::ForE, "fore"),
     (Kind::ForEl, "forEl"),
@@ -131,18 +140,26 @@ const KINDS: [(Kind, &str); 16] = [
     (Kind::Mac, "mac"),
     (Kind::Call, "call"),
     (Kind::Blk, "blk"),
+    (Kind::SeqW, "seqW"),
+    (Kind::SeqS, "seqS"),
+    (Kind::SeqA, "seqA"),
+    (Kind::SeqL, "seqL"),
+    (Kind::SeqI, "seqI"),
+    (Kind::SeqM, "seqM"),
 ];
 
 #[derive(Clone, Copy, PartialEq, Eq, Debug)]
 enum Leaf {
     T,
+    /// the body of the innermost construct is completely empty
+    Empty,
     Brk,
     Cont,
     Rec,
     RecF,
 }
-const LEAVES: [(Leaf, &str); 5] =
-    [(Leaf::T, "T"), (Leaf::Brk, "brk"), (Leaf::Cont, "cont"), (Leaf::Rec, "rec"), (Leaf::RecF, "recf")];
+const LEAVES: [(Leaf, &str); 6] =
+    [(Leaf::T, "T"), (Leaf::Empty, "empty"), (Leaf::Brk, "brk"), (Leaf::Cont, "cont"), (Leaf::Rec, "rec"), (Leaf::RecF, "recf")];
 
 #[derive(Clone, Debug)]
 struct Shape {
@@ -176,7 +193,7 @@ impl Shape {
     fn admissible(&self) -> bool {
         // blocks are not allowed inside macros / call blocks; a block name may appear once
         match self.leaf {
-            Leaf::T => true,
+            Leaf::T | Leaf::Empty => true,
             Leaf::Brk | Leaf::Cont => {
                 // lexically inside a `for` statement (body or else) with no macro/call/block between
                 for k in self.kinds.iter().rev() {
@@ -244,6 +261,7 @@ impl Shape {
             Leaf::Rec => "recurse".into(),
             Leaf::RecF => "recurse-captured".into(),
             Leaf::T => "plain".into(),
+            Leaf::Empty => "empty-body".into(),
         }
     }
 
@@ -257,7 +275,7 @@ impl Shape {
     fn src_at(&self, i: usize, s: &mut String) {
         if i == self.kinds.len() {
             s.push_str(match self.leaf {
-                Leaf::T => "",
+                Leaf::T | Leaf::Empty => "",
                 Leaf::Brk => "{% break %}",
                 Leaf::Cont => "{% continue %}",
                 Leaf::Rec => "{{ loop(x) }}",
@@ -266,10 +284,18 @@ impl Shape {
             return;
         }
         let d = i + 1;
-        let a = piece_src(d, 'A');
-        let b = piece_src(d, 'B');
-        let e = piece_src(d, 'E');
-        let f = piece_src(d, 'F');
+        // with the `empty` leaf the body that holds the child position has no content at all
+        let bare = self.leaf == Leaf::Empty && i + 1 == self.kinds.len();
+        let in_else = matches!(self.kinds[i], Kind::ForEl | Kind::IfEl);
+        let opt = |on: bool, tag: char| if on { String::new() } else { piece_src(d, tag) };
+        let a = opt(
+            bare && !in_else
+                && !matches!(self.kinds[i], Kind::SeqW | Kind::SeqS | Kind::SeqA | Kind::SeqL | Kind::SeqI | Kind::SeqM),
+            'A',
+        );
+        let b = opt(bare && !in_else, 'B');
+        let e = opt(bare && in_else, 'E');
+        let f = opt(bare && in_else, 'F');
         let c = piece_src(d, 'C');
         let mut child = String::new();
         self.src_at(i + 1, &mut child);
@@ -293,6 +319,12 @@ impl Shape {
                 "{{% macro q{d}() %}}(({{{{ caller() }}}})){{% endmacro %}}{{% call q{d}() %}}{a}{child}{b}{{% endcall %}}{c}"
             ),
             Kind::Blk => write!(s, "{{% block b{d} %}}{a}{child}{b}{{% endblock %}}{c}"),
+            Kind::SeqW => write!(s, "{{% with w = 'w{d}' %}}{a}{{% endwith %}}{child}{c}"),
+            Kind::SeqS => write!(s, "{{% set v %}}{a}{{% endset %}}{{{{ v }}}}{child}{c}"),
+            Kind::SeqA => write!(s, "{{% autoescape true %}}{a}{{% endautoescape %}}{child}{c}"),
+            Kind::SeqL => write!(s, "{{% for y in [1] %}}{a}{{% endfor %}}{child}{c}"),
+            Kind::SeqI => write!(s, "{{% include 'inc.txt' %}}{{% include 'inc.html' %}}{child}{c}"),
+            Kind::SeqM => write!(s, "{{% from 'lib.txt' import lm %}}{{{{ lm(1) }}}}{child}{c}"),
         }
         .unwrap();
     }
@@ -362,12 +394,17 @@ impl Spec<'_> {
     /// `A child B`
     fn body(&mut self, i: usize, ta: char, tb: char, sc: &Scope, out: &mut String) -> Flow {
         let d = i + 1;
-        self.piece(d, ta, sc, out);
+        let bare = self.shape.leaf == Leaf::Empty && i + 1 == self.shape.kinds.len();
+        if !bare {
+            self.piece(d, ta, sc, out);
+        }
         let f = self.node(i + 1, sc, out);
         if f != Flow::Normal {
             return f;
         }
-        self.piece(d, tb, sc, out);
+        if !bare {
+            self.piece(d, tb, sc, out);
+        }
         Flow::Normal
     }
 
@@ -392,7 +429,7 @@ impl Spec<'_> {
     fn node(&mut self, i: usize, sc: &Scope, out: &mut String) -> Flow {
         if i == self.shape.kinds.len() {
             return match self.shape.leaf {
-                Leaf::T => Flow::Normal,
+                Leaf::T | Leaf::Empty => Flow::Normal,
                 Leaf::Brk => Flow::Break,
                 Leaf::Cont => Flow::Continue,
                 Leaf::Rec | Leaf::RecF => {
@@ -502,6 +539,27 @@ impl Spec<'_> {
                     self.stray = true;
                 }
             }
+            Kind::SeqW | Kind::SeqS | Kind::SeqA | Kind::SeqL => {
+                let mut inner = sc.clone();
+                match self.shape.kinds[i] {
+                    Kind::SeqW => inner.w = Some(d),
+                    Kind::SeqA => inner.ae = true,
+                    _ => {}
+                }
+                self.piece(d, 'A', &inner, out);
+                let f = self.node(i + 1, sc, out);
+                if f != Flow::Normal {
+                    return f;
+                }
+            }
+            Kind::SeqI | Kind::SeqM => {
+                // the included templates have their own auto-escape mode (by file name)
+                out.push_str(if self.shape.kinds[i] == Kind::SeqI { "i1<&lt;" } else { "m" });
+                let f = self.node(i + 1, sc, out);
+                if f != Flow::Normal {
+                    return f;
+                }
+            }
             Kind::Call => {
                 out.push_str("((");
                 let f = self.body(i, 'A', 'B', sc, out);
@@ -532,6 +590,14 @@ impl Spec<'_> {
 // ------------------------------------------------------------------------------------------
 // dynamic part
 
+thread_local! {
+    static LAST_PANIC: std::cell::RefCell<String> = const { std::cell::RefCell::new(String::new()) };
+}
+
+fn last_panic_location() -> String {
+    LAST_PANIC.with(|x| x.borrow().clone())
+}
+
 fn shape_env() -> Environment<'static> {
     let mut env = Environment::new();
     env.set_fuel(Some(200_000));
@@ -543,6 +609,13 @@ fn shape_env() -> Environment<'static> {
             Value::from(s)
         }
     });
+    env.add_template(
+        "inc.txt",
+        "{% with q = 1 %}{% for z in [1, 2] %}{% if z == 2 %}{% break %}{% endif %}i{{ z }}{% endfor %}{% endwith %}{{ h }}",
+    )
+    .unwrap();
+    env.add_template("inc.html", "{{ h }}").unwrap();
+    env.add_template("lib.txt", "{% macro lm(a) %}{% set t %}m{% endset %}{{ t }}{% endmacro %}").unwrap();
     env
 }
 
@@ -569,6 +642,24 @@ fn mismatch_text(ms: &[balance::Mismatch]) -> String {
         })
         .collect::<Vec<_>>()
         .join(";")
+}
+
+/// sentinel pieces (`[dX]` + probes) of an output, wrappers of filters ignored
+fn pieces(s: &str) -> Vec<String> {
+    let clean: String = s.chars().filter(|c| *c != '(' && *c != ')').collect();
+    clean.split('[').filter(|x| !x.is_empty()).map(|x| x.to_string()).collect()
+}
+
+fn subsequence(spec: &str, got: &str) -> bool {
+    let want = pieces(spec);
+    let have = pieces(got);
+    let mut i = 0;
+    for h in have.iter() {
+        if i < want.len() && *h == want[i] {
+            i += 1;
+        }
+    }
+    i == want.len()
 }
 
 fn params_for(shape: &Shape) -> Vec<Params> {
@@ -614,14 +705,19 @@ fn run_dynamic(env: &Environment<'_>, tmpl_name: &str, shape: &Shape, p: &Params
         fails.push(format!("depth-mismatch[{}]", mismatch_text(&ms)));
     }
     match (&res, &spec_a) {
-        (Err(_), _) => fails.push("panic".into()),
+        (Err(_), _) => fails.push(format!("panic@{}", last_panic_location())),
         (Ok(_), None) => {
             if fails.is_empty() {
                 return "skip:stray-loop-control".into();
             }
         }
         (Ok(Ok(got)), Some(a)) => {
-            if got != a && Some(got) != spec_b.as_ref() {
+            // what happens to text that was captured before a `break`/`continue` left the capture
+            // is not the property's business (the engine drops it, like the reference does): for
+            // those shapes only the text the reference produces must appear, in order
+            let tolerant = shape.class().contains("capture")
+                && (subsequence(a, got) || spec_b.as_ref().map_or(false, |b| subsequence(b, got)));
+            if got != a && Some(got) != spec_b.as_ref() && !tolerant {
                 fails.push(format!("output[{}]expected[{}]", got, a));
             } else if started != finished {
                 fails.push(format!("activations {} exits {}", started, finished));
@@ -645,7 +741,7 @@ fn do_shape(out: &mut impl std::io::Write, shape: &Shape, verbose: bool) -> bool
     let added = guarded(|| env.add_template_owned(tname.to_string(), src.clone()));
     match added {
         Err(_) => {
-            writeln!(out, "R\t{}\t{}\t-\tfail:panic-in-compiler", name, class).unwrap();
+            writeln!(out, "R\t{}\t{}\t-\tfail:panic-in-compiler@{}", name, class, last_panic_location()).unwrap();
             return true;
         }
         Ok(Err(e)) => {
@@ -804,7 +900,7 @@ fn do_fixtures(out: &mut impl std::io::Write) {
                 continue;
             }
             Err(_) => {
-                writeln!(out, "R\t{}\tfixture\t-\tfail:panic-in-compiler", case).unwrap();
+                writeln!(out, "R\t{}\tfixture\t-\tfail:panic-in-compiler@{}", case, last_panic_location()).unwrap();
                 continue;
             }
         }
@@ -818,7 +914,7 @@ fn do_fixtures(out: &mut impl std::io::Write) {
         let res = guarded(|| t.render(ctx));
         let ms = balance::take_mismatches();
         let verdict = match (&res, ms.is_empty()) {
-            (Err(p), _) => format!("fail:panic:{}", p.replace(['\t', '\n'], " ")),
+            (Err(p), _) => format!("fail:panic@{}:{}", last_panic_location(), p.replace(['\t', '\n'], " ")),
             (_, false) => format!("fail:depth-mismatch[{}]", mismatch_text(&ms)),
             (Ok(Ok(_)), true) => "ok".to_string(),
             (Ok(Err(_)), true) => "ok-error".to_string(),
@@ -843,7 +939,7 @@ fn do_fixtures(out: &mut impl std::io::Write) {
                 dump_template(out, &case, "fixture", &t);
             }
             Ok(Err(_)) => writeln!(out, "R\t{}\tfixture\t-\tnocompile:syntax", case).unwrap(),
-            Err(_) => writeln!(out, "R\t{}\tfixture\t-\tfail:panic-in-compiler", case).unwrap(),
+            Err(_) => writeln!(out, "R\t{}\tfixture\t-\tfail:panic-in-compiler@{}", case, last_panic_location()).unwrap(),
         }
     }
 }
@@ -884,6 +980,35 @@ fn do_extras(out: &mut impl std::io::Write) {
             )],
             "321|(())()Z",
         ),
+        (
+            "extra:loop-alias",
+            vec![(
+                "main.txt",
+                "{% for x in [[[]],[]] recursive %}[{% set r = loop %}{% for y in [1] %}{% with q = 1 %}{{ r(x) }}{% endwith %}{% endfor %}]{% endfor %}Z",
+            )],
+            "[[]][]Z",
+        ),
+        (
+            "extra:loop-into-macro",
+            vec![(
+                "main.txt",
+                "{% for x in [[[]],[]] recursive %}[{% macro m(l, a) %}({{ l(a) }}){% endmacro %}{{ m(loop, x) }}]{% endfor %}Z",
+            )],
+            "[([()])][()]Z",
+        ),
+        (
+            "extra:recurse-from-block",
+            vec![("main.txt", "{% for x in [[1]] recursive %}{% block b %}<{{ loop(x) }}>{% endblock %}{% endfor %}Z")],
+            "!error",
+        ),
+        (
+            "extra:recurse-from-include",
+            vec![
+                ("inc.txt", "{% with a = 1 %}{{ loop(x) }}{% endwith %}"),
+                ("main.txt", "{% for x in [[1]] recursive %}{% include 'inc.txt' %}{% endfor %}Z"),
+            ],
+            "!error",
+        ),
     ];
     for (case, tmpls, expected) in sets {
         let mut env = Environment::new();
@@ -906,7 +1031,10 @@ fn do_extras(out: &mut impl std::io::Write) {
         let res = guarded(|| env.get_template("main.txt").unwrap().render(()));
         let ms = balance::take_mismatches();
         let verdict = match res {
-            Err(_) => "fail:panic".to_string(),
+            Err(_) => format!("fail:panic@{}", last_panic_location()),
+            Ok(Err(e)) if expected == "!error" && e.kind() != minijinja::ErrorKind::OutOfFuel && ms.is_empty() => {
+                "ok".to_string()
+            }
             Ok(Err(e)) => format!("fail:error:{:?}", e.kind()),
             Ok(Ok(s)) if !ms.is_empty() => format!("fail:depth-mismatch[{}] output[{}]", mismatch_text(&ms), s),
             Ok(Ok(s)) if s != expected => format!("fail:output[{}]expected[{}]", s, expected),
@@ -917,7 +1045,18 @@ fn do_extras(out: &mut impl std::io::Write) {
 }
 
 fn main() {
-    quiet_panics();
+    // panics are results; remember where the last one happened (its site)
+    std::panic::set_hook(Box::new(|info| {
+        let loc = info
+            .location()
+            .map(|l| {
+                let f = l.file();
+                let f = f.rsplit("minijinja/src/").next().unwrap_or(f);
+                format!("{}#{}", f, l.line())
+            })
+            .unwrap_or_else(|| "?".to_string());
+        LAST_PANIC.with(|x| *x.borrow_mut() = loc);
+    }));
     let args: Vec<String> = std::env::args().collect();
     let stdout = std::io::stdout();
     let mut out = std::io::BufWriter::with_capacity(1 << 20, stdout.lock());
@@ -927,9 +1066,37 @@ fn main() {
             let depth = if tier == "thorough" { 4 } else { 3 };
             do_fixtures(&mut out);
             do_extras(&mut out);
+            {
+                let env = shape_env();
+                for n in ["inc.txt", "inc.html", "lib.txt"] {
+                    dump_template(&mut out, &format!("extra:shape-helpers/{}", n), "extra", &env.get_template(n).unwrap());
+                }
+            }
             enumerate(depth, &mut |s| {
                 do_shape(&mut out, s, false);
             });
+            // seeded sample of deeper nestings
+            let mut rng = Rng::new(seed_from_env());
+            let (n, lo, hi) = if tier == "thorough" { (40_000, 5, 7) } else { (12_000, 4, 6) };
+            let mut done = 0;
+            let mut tries = 0;
+            while done < n && tries < 50 * n {
+                tries += 1;
+                let d = lo + rng.below((hi - lo + 1) as u64) as usize;
+                let kinds: Vec<Kind> = (0..d).map(|_| rng.pick(&KINDS).0).collect();
+                // bias towards loop controls: they are what the property is about
+                let leaf = match rng.below(10) {
+                    0 => if rng.chance(1, 2) { Leaf::T } else { Leaf::Empty },
+                    1..=4 => Leaf::Brk,
+                    5..=7 => Leaf::Cont,
+                    8 => Leaf::Rec,
+                    _ => Leaf::RecF,
+                };
+                let s = Shape { kinds, leaf };
+                if s.admissible() && do_shape(&mut out, &s, false) {
+                    done += 1;
+                }
+            }
         }
         Some("one") => {
             let s = args.get(2).expect("shape");
